@@ -425,9 +425,26 @@ Proof.
   all: try (destruct (runt s); auto; fail).
 Qed.
 
+(* the drain step of stopAllRunnables exists only in the fix_stale variant *)
+Definition is_drain (p : rpc) : bool := match p with RStopDrain => true | _ => false end.
+Definition I_drain (P : params) (s : state) : Prop :=
+  fix_stale P = false -> count_r is_drain (reloaders s) = 0 /\ runt s <> TStopDrain.
+
+Lemma I_drain_step P s l s' : I_drain P s -> step P s l = Some s' -> I_drain P s'.
+Proof.
+  intros H Hst. unfold I_drain in *.
+  open_step Hst; cbn; goal_cases; intros Hfs; try congruence;
+    destruct (H Hfs) as [Hc Hr]; count_facts is_drain;
+    repeat match goal with Hq : r_pc ?x = _ |- _ => rewrite Hq in * end; cbn in *;
+    unfold tear_pc; try (destruct (fix_c09 P));
+    (split; [try lia|try discriminate; try congruence]).
+  all: destruct (membership_changed P (entries_of s) c); cbn in *; lia.
+Qed.
+
 Record Gall (P : params) (s : state) : Prop := {
   g_c10 : InvC10 s; g_cfg : I_cfg s; g_oops : I_oops s; g_mu : L_mu P s; g_run : L_run s;
-  g_valid : G_valid P s; g_old : G_old P s; g_kids : G_kids s; g_sig : I_sig s; g_ret : I_ret2 s }.
+  g_valid : G_valid P s; g_old : G_old P s; g_kids : G_kids s; g_sig : I_sig s; g_ret : I_ret2 s;
+  g_drain : I_drain P s }.
 
 Lemma Gall_init P : Gall P init.
 Proof.
@@ -442,13 +459,14 @@ Proof.
   - split; [intros _ _ c []|intros w []].
   - intros k p Hn. destruct k; discriminate Hn.
   - exact I.
+  - intros _. split; [reflexivity|discriminate].
 Qed.
 
 Lemma Gall_step P s l s' :
   fix_c09 P = true -> good_pool P ->
   Gall P s -> good_label P l -> step P s l = Some s' -> Gall P s'.
 Proof.
-  intros Hf Hp [(H0 & H1 & H2 & H3 & H4) Hcfg Ho Hmu Hrun Hv Hold Hk Hs Hr] Hl Hst.
+  intros Hf Hp [(H0 & H1 & H2 & H3 & H4) Hcfg Ho Hmu Hrun Hv Hold Hk Hs Hr Hd] Hl Hst.
   constructor.
   - eapply InvC10_step; [|eassumption]. unfold InvC10. auto.
   - eapply I_cfg_step; eassumption.
@@ -460,6 +478,7 @@ Proof.
   - eapply (G_kids_step P s l s'); eassumption.
   - eapply I_sig_step; eassumption.
   - eapply I_ret2_step; eassumption.
+  - eapply I_drain_step; eassumption.
 Qed.
 
 Lemma Gall_greach P s : fix_c09 P = true -> good_pool P -> greach P s -> Gall P s.
